@@ -24,7 +24,7 @@ ENGINE = "E1"
 FUNCTIONS = ["ioflo.base.wanting.Want*.action", "ioflo.base.fiating.Fiat*.action", "ioflo.base.skedding.Skedder.run",
              "ioflo.base.framing.Framer.makeRunner (control/status machine)", "ioflo.base.building.Builder.build (concrete text)"]
 ASSUMPTIONS = [
-    "part A: all periods zero (every scheduled tasker is due every tick); workers are single-frame framers; two bidders, each one bid at a symbolic tick in [1,3]; "
+    "part A: all periods zero (every scheduled tasker is due every tick); workers are single-frame framers; two bidders, each one bid at a symbolic tick in [1,3]; a framer Z that bids stop/abort/run on itself in its first frame (its own start tick); "
     "the run is ended by a controller bidding stop all at tick 5; the final abort sweep is excluded from 'controls received'",
     "part B: slave framer with two frames and a guarded first frame; up to three fiats in consecutive master frames (one per tick); guard share symbolic per tick",
     "selectors: bid verbs, targets (A, B, me), declaration positions; fiat verbs.  symbolic: bid ticks, guard values",
@@ -61,7 +61,7 @@ def verifBidMark(self, **kwa):
     EVENTS.append(("bid", fr.framer.name, fr.name, self.store.stamp, False))
 
 
-def script_a(pos, bids):
+def script_a(pos, bids, selfbid="stop"):
     """pos: declaration order of the four framers; bids: {bidder: (verb, target)}"""
     L = ["house h"]
     for nm in pos:
@@ -73,6 +73,7 @@ def script_a(pos, bids):
             verb, target = bids[nm]
             L += ["  framer %s be active first b0" % nm, "    frame b0", "      go b1 if recurred >= goal_%s" % nm,
                   "    frame b1", "      do verif bid mark at enter", "      bid %s %s" % (verb, target)]
+    L += ["  framer Z be active first z0", "    frame z0", "      do verif bid mark at enter", "      bid %s me" % selfbid]
     L += ["  framer S be slave first w", "    frame w", "      do verif record at recur"]
     L += ["  framer ctl be active in back first c0", "    frame c0", "      go c1 if recurred >= 5", "    frame c1", "      bid stop all"]
     return "\n".join(L) + "\n"
@@ -90,7 +91,9 @@ def h_bids(sym, perm, vx=None, vy=None, tx=None, ty=None):
     ty = sym.choice("target_Y", 3) if ty is None else ty
     targets = ["A", "B", "me"]
     bids = dict(X=(VERBS[vx], targets[tx]), Y=(VERBS[vy], targets[ty]))
-    text = script_a(pos, bids)
+    selfbid = ["stop", "abort", "run"][sym.choice("selfbid", 3)]     # Z bids on itself in its first frame, i.e. in its own start tick
+    bids["Z"] = (selfbid, "me")
+    text = script_a(pos, bids, selfbid)
     with flogen.notrace(sym):
         houses = flogen.build_text(text)
     house = houses[0]
@@ -113,7 +116,7 @@ def h_bids(sym, perm, vx=None, vy=None, tx=None, ty=None):
     del EVENTS[:]
     sk.run()
     order = [t.name for t in house.taskables]
-    sym.check(order == pos + ["ctl"], "C04/harness/order", lambda: "%s" % order)
+    sym.check(order == pos + ["Z", "ctl"], "C04/harness/order", lambda: "%s" % order)
     # slaves get nothing from the skedder
     sym.check(not any(e[1] == "S" for e in EVENTS if e[0] in ("begin", "end")), "C04/slave-run-by-scheduler", lambda: "%s" % EVENTS)
     # for every bid: the target's next run
